@@ -219,3 +219,105 @@ pub fn compare_accept(sub: &str, text: &str) -> Result<Verdict, Failure> {
 pub fn token_classes(text: &str) -> Option<Vec<&'static str>> {
     reflex::tokenize(text).ok().map(|t| t.iter().map(|x| x.1.class()).collect())
 }
+
+/// A near-duplicate of an expression: the same text with one small change that
+/// a sloppy cache key or normalisation could conflate with the original
+/// (whitespace inside quoted forms, letter case, one digit, insignificant
+/// whitespace between tokens).  The result may or may not be a sentence.
+pub fn near_duplicate(text: &str, src: &mut Src) -> String {
+    let cs: Vec<char> = text.chars().collect();
+    if cs.is_empty() {
+        return " ".to_string();
+    }
+    // positions inside quoted forms
+    let mut inside = vec![false; cs.len()];
+    let mut q: Option<char> = None;
+    let mut i = 0;
+    while i < cs.len() {
+        match q {
+            None => {
+                if cs[i] == '\'' || cs[i] == '"' || cs[i] == '`' {
+                    q = Some(cs[i]);
+                }
+            }
+            Some(d) => {
+                if cs[i] == '\\' {
+                    inside[i] = true;
+                    if i + 1 < cs.len() {
+                        inside[i + 1] = true;
+                    }
+                    i += 2;
+                    continue;
+                }
+                if cs[i] == d {
+                    q = None;
+                } else {
+                    inside[i] = true;
+                }
+            }
+        }
+        i += 1;
+    }
+    let pick_pos = |src: &mut Src, pred: &dyn Fn(usize) -> bool| -> Option<usize> {
+        let c: Vec<usize> = (0..cs.len()).filter(|i| pred(*i)).collect();
+        if c.is_empty() {
+            None
+        } else {
+            Some(c[src.below(c.len())])
+        }
+    };
+    let mut out = cs.clone();
+    match src.below(7) {
+        0 => {
+            // double a space inside a quoted form
+            if let Some(p) = pick_pos(src, &|i| inside[i] && cs[i] == ' ') {
+                out.insert(p, ' ');
+            } else if let Some(p) = pick_pos(src, &|i| inside[i]) {
+                out.insert(p, ' ');
+            }
+        }
+        1 => {
+            // a space inside a quoted form becomes a tab / is removed
+            if let Some(p) = pick_pos(src, &|i| inside[i] && cs[i] == ' ') {
+                if src.flip() {
+                    out[p] = '\t';
+                } else {
+                    out.remove(p);
+                }
+            }
+        }
+        2 => {
+            // letter case
+            if let Some(p) = pick_pos(src, &|i| cs[i].is_ascii_alphabetic()) {
+                out[p] = if cs[p].is_ascii_lowercase() { cs[p].to_ascii_uppercase() } else { cs[p].to_ascii_lowercase() };
+            }
+        }
+        3 => {
+            // one digit
+            if let Some(p) = pick_pos(src, &|i| cs[i].is_ascii_digit()) {
+                out[p] = if cs[p] == '9' { '8' } else { ((cs[p] as u8) + 1) as char };
+            }
+        }
+        4 => {
+            // insignificant whitespace between tokens
+            if let Some(p) = pick_pos(src, &|i| !inside[i] && matches!(cs[i], '.' | '|' | ',' | ')' | ']' | '}' | '=' | '<' | '>')) {
+                out.insert(p, ' ');
+            }
+        }
+        5 => {
+            // swap two neighbouring characters inside a quoted form
+            if let Some(p) = pick_pos(src, &|i| inside[i] && i + 1 < cs.len() && inside[i + 1] && cs[i] != cs[i + 1] && cs[i] != '\\' && cs[i + 1] != '\\') {
+                out.swap(p, p + 1);
+            }
+        }
+        _ => {
+            // trailing / leading whitespace
+            if src.flip() {
+                out.push(' ');
+            } else {
+                out.insert(0, '\n');
+            }
+        }
+    }
+    out.into_iter().collect()
+}
